@@ -57,10 +57,21 @@ class SpyRunner(Runner):
         self.yielded = []          # tasks
         self.inflight = []         # tasks submitted, not yielded (submit order)
         self.probe_tasks = None    # set by the engine: tasks to probe at close()
+        self.ok_names = set()
         trace.runner = self
 
     def submit_task(self, task, task_name, use_cache):
-        self.trace.rec('submit', name=task.name, use_cache=use_cache, task_name=task_name)
+        r = self.trace.rec('submit', name=task.name, use_cache=use_cache, task_name=task_name)
+        if not use_cache:
+            gone = []
+            for dep in body.walk_deps(task):
+                if dep.name in self.ok_names and dep.name not in gone:
+                    try:
+                        self.inner.get_result(dep)
+                    except KeyError:
+                        gone.append(dep.name)
+            if gone:
+                r['dep_unavailable'] = gone
         self.submitted.append((task, use_cache))
         self.inflight.append(task)
         self.hooks.on_submit(self, task, task_name, use_cache)
@@ -76,6 +87,8 @@ class SpyRunner(Runner):
             self.trace.rec('yield', name=task.name, ok=ok,
                            res=(None if ok else type(res).__name__))
             self.yielded.append(task)
+            if ok:
+                self.ok_names.add(task.name)
             for i, t in enumerate(self.inflight):
                 if t is task or t == task:
                     del self.inflight[i]
@@ -124,9 +137,20 @@ class SpyRunner(Runner):
 
     def remove_results(self, tasks):
         tasks = list(tasks)
-        self.trace.rec('remove', names=[t.name for t in tasks])
+        r = self.trace.rec('remove', names=[t.name for t in tasks])
         self.hooks.on_remove(self, tasks)
-        return self.inner.remove_results(tasks)
+        out = self.inner.remove_results(tasks)
+        left = []
+        for t in tasks:
+            try:
+                self.inner.get_result(t)
+            except KeyError:
+                pass
+            else:
+                left.append(t.name)
+        if left:
+            r['left_after'] = left
+        return out
 
     def get_task_infos(self):
         return self.inner.get_task_infos()
